@@ -1211,6 +1211,8 @@ ec_point_proj_fpx_sl_win_mult_precompute_affine(size_t wnd_bits, ec_point_p poin
 
 	if (0 == wnd_bits || NULL == point || NULL == curve || NULL == mult_data)
 		return (EINVAL);
+	if (wnd_bits > EC_PF_FXP_MULT_WIN_BITS) /* Tables hold EC_PF_FXP_MULT_NUM_POINTS points. */
+		return (EINVAL);
 	if (0 != (wnd_bits & (wnd_bits - 1)))
 		return (EINVAL); /* Must be power of 2. */
 	if (0 != ec_point_is_at_infinity(point)) { /* R←(1,1,0) */
@@ -1301,6 +1303,8 @@ ec_point_proj_fpx_comb1t_mult_precompute_affine(size_t wnd_bits, ec_point_p poin
 	size_t i, j, iidx;
 
 	if (0 == wnd_bits || NULL == point || NULL == curve || NULL == mult_data)
+		return (EINVAL);
+	if (wnd_bits > EC_PF_FXP_MULT_WIN_BITS) /* Tables hold EC_PF_FXP_MULT_NUM_POINTS points. */
 		return (EINVAL);
 	if (0 != ec_point_is_at_infinity(point)) { /* R←(1,1,0) */
 		mult_data->wnd_bits = 0; /* Will return point at infinity. */
@@ -1428,6 +1432,8 @@ ec_point_proj_fpx_comb2t_mult_precompute_affine(size_t wnd_bits, ec_point_p poin
 	size_t i, pt_cnt;
 
 	if (0 == wnd_bits || NULL == point || NULL == curve || NULL == mult_data)
+		return (EINVAL);
+	if (wnd_bits > EC_PF_FXP_MULT_WIN_BITS) /* Tables hold EC_PF_FXP_MULT_NUM_POINTS points. */
 		return (EINVAL);
 	BN_RET_ON_ERR(ec_point_proj_fpx_comb1t_mult_precompute_affine(wnd_bits,
 	    point, curve, (ec_point_proj_fpx_comb1t_mult_data_p)mult_data));
@@ -2069,6 +2075,8 @@ ec_point_affine_fpx_sl_win_mult_precompute(size_t wnd_bits, ec_point_p point,
 
 	if (0 == wnd_bits || NULL == point || NULL == curve || NULL == mult_data)
 		return (EINVAL);
+	if (wnd_bits > EC_PF_FXP_MULT_WIN_BITS) /* Tables hold EC_PF_FXP_MULT_NUM_POINTS points. */
+		return (EINVAL);
 	if (0 != (wnd_bits & (wnd_bits - 1)))
 		return (EINVAL); /* Must be power of 2. */
 	if (0 != ec_point_is_at_infinity(point)) { /* R←(1,1,0) */
@@ -2130,6 +2138,8 @@ ec_point_affine_fpx_comb1t_mult_precompute(size_t wnd_bits, ec_point_p point,
 	size_t i, j, iidx;
 
 	if (0 == wnd_bits || NULL == point || NULL == curve || NULL == mult_data)
+		return (EINVAL);
+	if (wnd_bits > EC_PF_FXP_MULT_WIN_BITS) /* Tables hold EC_PF_FXP_MULT_NUM_POINTS points. */
 		return (EINVAL);
 	if (0 != ec_point_is_at_infinity(point)) { /* R←(1,1,0) */
 		mult_data->wnd_bits = 0; /* Will return point at infinity. */
@@ -2209,6 +2219,8 @@ ec_point_affine_fpx_comb2t_mult_precompute(size_t wnd_bits, ec_point_p point,
 	size_t i, pt_cnt;
 
 	if (0 == wnd_bits || NULL == point || NULL == curve || NULL == mult_data)
+		return (EINVAL);
+	if (wnd_bits > EC_PF_FXP_MULT_WIN_BITS) /* Tables hold EC_PF_FXP_MULT_NUM_POINTS points. */
 		return (EINVAL);
 	BN_RET_ON_ERR(ec_point_affine_fpx_comb1t_mult_precompute(wnd_bits,
 	    point, curve, (ec_point_fpx_comb1t_mult_data_p)mult_data));
